@@ -54,7 +54,7 @@ inline J parse_file(const char* path) {
   JParser ps(s.c_str()); return ps.parse();
 }
 inline std::string jesc(const std::string& s) {
-  std::string o; for (unsigned char c : s) { if (c == '"' || c == '\\') { o += '\\'; o += char(c); } else if (c == '\n') o += "\\n"; else if (c < 0x20) o += ' '; else o += char(c); } return o;
+  std::string o; for (unsigned char c : s) { if (c == '"' || c == '\\') { o += '\\'; o += char(c); } else if (c == '\n') o += "\\n"; else if (c < 0x20) o += ' '; else if (c >= 0x7f) o += '?'; else o += char(c); } return o;   // never anything but printable ASCII: garbage bytes (a dangling string) must not break the protocol
 }
 
 // ------------------------------------------------------------------ plan = what one simulated run does
